@@ -362,3 +362,73 @@ pub fn concurrent_marking_in_progress<VM: VMBinding>(mmtk: &MMTK<VM>) -> Option<
         .concurrent()
         .map(|c| c.concurrent_work_in_progress())
 }
+
+// ------------------------------------------------------------------------
+// Scheduler event log (H3).  No-op unless a sink is installed.
+// ------------------------------------------------------------------------
+
+pub mod events {
+    use std::sync::atomic::{AtomicBool, Ordering};
+    use std::sync::RwLock;
+
+    /// `stage` is the index of a `WorkBucketStage` (`usize::MAX` = designated work of a worker).
+    #[derive(Clone, Debug)]
+    pub enum Ev {
+        PacketAdd { stage: usize, name: &'static str, local: bool },
+        PacketStart { worker: usize, name: &'static str },
+        PacketEnd { worker: usize, name: &'static str },
+        /// A bucket is about to be opened by `WorkBucket::update` (its open condition held).
+        /// `earlier`: (stage, enabled, open, empty) of every stop-the-world stage before it.
+        BucketOpenByUpdate { stage: usize, earlier: Vec<(usize, bool, bool, bool)> },
+        BucketOpen { stage: usize },
+        BucketClose { stage: usize, empty: bool },
+        Park { worker: usize, parked: usize, total: usize },
+        /// 0 = ParkSelf, 1 = WakeSelf, 2 = WakeAll
+        LastParked { worker: usize, result: u8 },
+        Unpark { worker: usize, parked: usize },
+        /// goal: 0 = Gc, 1 = Shutdown, 2 = StopForFork
+        Request { goal: u8, newly: bool },
+        GoalStart { goal: u8 },
+        GoalComplete,
+        GcFinished { worker: usize },
+        Surrender { ordinal: usize, all: bool },
+    }
+
+    static ENABLED: AtomicBool = AtomicBool::new(false);
+    static SINK: RwLock<Option<fn(Ev)>> = RwLock::new(None);
+
+    pub fn set_sink(f: fn(Ev)) {
+        *SINK.write().unwrap() = Some(f);
+        ENABLED.store(true, Ordering::SeqCst);
+    }
+
+    pub fn emit(make: impl FnOnce() -> Ev) {
+        if ENABLED.load(Ordering::Relaxed) {
+            if let Some(f) = *SINK.read().unwrap() {
+                f(make());
+            }
+        }
+    }
+
+    /// (index, name, is_stw) of every work bucket stage, in opening order.
+    pub fn stages() -> Vec<(usize, String, bool)> {
+        use crate::scheduler::WorkBucketStage;
+        use enum_map::Enum;
+        (0..WorkBucketStage::LENGTH)
+            .map(|i| {
+                let s = WorkBucketStage::from_usize(i);
+                (i, format!("{:?}", s), s.is_stw())
+            })
+            .collect()
+    }
+
+    /// (stage, enabled, open, empty) of every work bucket of the instance.
+    pub fn bucket_states<VM: crate::vm::VMBinding>(mmtk: &crate::MMTK<VM>) -> Vec<(usize, bool, bool, bool)> {
+        use enum_map::Enum;
+        mmtk.scheduler
+            .work_buckets
+            .iter()
+            .map(|(id, b)| (id.into_usize(), b.is_enabled(), b.is_open(), b.is_empty()))
+            .collect()
+    }
+}
